@@ -76,3 +76,28 @@ package ipset
 //@   trusted
 //@   modifies nothing
 //@   ensures result == containsIP(s, ip)
+//@
+//@ # building a set (abstracting tier): an entry that does not parse contributes NOTHING to the set (it is only
+//@ # reported); every parsed prefix is added masked, as the [first, last] range bounds computes, to the table of its own
+//@ # family; the tables are compiled before the set is returned
+//@ func New
+//@   abstract
+//@   nosafety all pre
+//@   assert at call (*internal/ipset.Set).add#1: lastret("net/netip.ParsePrefix", 1) == nil && arg1 == lastret("net/netip.ParsePrefix") && arg0 == s
+//@   assert at append#1: lastret("net/netip.ParsePrefix", 1) != nil
+//@   assert at call (*internal/ipset.Set).compile#1: arg0 == s
+//@   assert at return: result0 == s && calls("(*internal/ipset.Set).compile") == 1
+//@
+//@ func (*Set).add
+//@   abstract
+//@   nosafety all pre
+//@   assert at call internal/ipset.bounds#1: arg0 == lastret("(net/netip.Prefix).Masked")
+//@   assert at call (net/netip.Prefix).Masked#1: arg0 == entry_p
+//@   assert at append#1: lastret("(net/netip.Addr).Is4") && src[0].lo == lastret("internal/ipset.bounds") && src[0].hi == lastret("internal/ipset.bounds", 1) && region(dst) == region(s.v4)
+//@   assert at append#2: !lastret("(net/netip.Addr).Is4") && src[0].lo == lastret("internal/ipset.bounds") && src[0].hi == lastret("internal/ipset.bounds", 1) && region(dst) == region(s.v6)
+//@
+//@ func (*Set).compile
+//@   abstract
+//@   nosafety all pre
+//@   assert at call internal/ipset.compile#1: arg0 == s.v4
+//@   assert at call internal/ipset.compile#2: arg0 == s.v6
